@@ -5,6 +5,8 @@ import (
 	"context"
 	"crypto/sha256"
 	"fmt"
+	"os"
+	"os/exec"
 	"reflect"
 	"strconv"
 	"strings"
@@ -25,6 +27,13 @@ type Runner struct {
 	Env *Env
 	// Prop is the property the oracle failures are reported for ("C01" or "C03").
 	Prop string
+	// encLog keeps every executed `enc` request with its schema for the C03 layout oracle.
+	encLog []encRecord
+	curDef string
+}
+
+type encRecord struct {
+	def, op, impl, universe string
 }
 
 var ctxBg = context.Background()
@@ -128,7 +137,12 @@ func (x *Runner) Exec(op string) string {
 			return "bad-op"
 		}
 		if f[0] == "enc" {
-			return x.execEnc(v, val)
+			ans := x.execEnc(v, val)
+			if x.Prop == "C03" && len(x.encLog) < 400000 {
+				x.encLog = append(x.encLog, encRecord{def: "def " + x.Env.Schema.SExp(), op: op, impl: ans, universe: x.Env.Name})
+			}
+
+			return ans
 		}
 		b, out := x.Encode(v, val)
 		if out != "ok" {
@@ -269,6 +283,50 @@ func (x *Runner) execDec(b []byte, validation bool) string {
 	}
 
 	return fmt.Sprintf("ok %s %d", ValText(s, d, TextOpts{}), n)
+}
+
+// LayoutOracle is the forward direction of C03 evaluated as a property oracle: every Encode result
+// of the real code must equal the bytes of the independent reference encoder (the Lean model,
+// pinned to the documented layout by the C03_layout_* theorems).  The compiled driver is run once
+// over all recorded `enc` requests; a differing answer is reported with the value as failing input.
+func (x *Runner) LayoutOracle(driver string) {
+	if len(x.encLog) == 0 {
+		return
+	}
+	if _, err := os.Stat(driver); err != nil {
+		x.R.Count("layout-oracle:driver-missing")
+
+		return
+	}
+	var in bytes.Buffer
+	for i, e := range x.encLog {
+		fmt.Fprintf(&in, "# enc %d\n%s\n%s\n", i, e.def, e.op)
+	}
+	cmd := exec.Command(driver)
+	cmd.Stdin = &in
+	out, err := cmd.Output()
+	if err != nil {
+		x.R.Count("layout-oracle:driver-failed")
+
+		return
+	}
+	lines := strings.Split(strings.TrimRight(string(out), "\n"), "\n")
+	if len(lines) != 3*len(x.encLog) {
+		x.R.Count("layout-oracle:driver-output-short")
+
+		return
+	}
+	for i, e := range x.encLog {
+		ref := lines[3*i+2]
+		x.R.Count("layout-oracle:compared")
+		if ref == e.impl {
+			continue
+		}
+		kind := strings.SplitN(e.impl, " ", 2)[0] + "-vs-" + strings.SplitN(ref, " ", 2)[0]
+		x.R.Fail("layout", fmt.Sprintf("Encode differs from the reference encoder: impl=%s reference=%s request=%s schema=%s universe=%s",
+			clip(e.impl, 300), clip(ref, 300), clip(e.op, 400), clip(e.def, 600), e.universe),
+			map[string]string{"oracle": "layout", "trigger": kind, "type": e.universe})
+	}
 }
 
 // CaseKey is the canonical key of a case for the distinct-nontrivial count.
